@@ -91,30 +91,44 @@ pub fn c04_zero_factor() {
     reached();
 }
 
-//@ id=C04 tier=quick to=1200 cfg=std exh=1 desc="multiplying by +-1 is exact: x*(+-1.0), (+-1.0)*x, x*=(+-1.0), x*(+-ONE), (+-ONE)*x equal +-x word for word, ALL valid x with hi 0 or in [2^-450,2^450] and lo 0 or >= 2^-959"
-#[cfg_attr(kani, kani::proof)]
-pub fn c04_unit_factor() {
+/// multiplying by +-1: f64 factor forms (dw = false) or TwoFloat factor forms (dw = true)
+pub fn unit_factor(dw: bool) {
     let x = any_valid();
     assume(in_range450(x));
     let neg = any_bool();
     let u = if neg { -1.0 } else { 1.0 };
-    let ut = tf(u, 0.0);
     let (wh, wl) = if neg { (-x.hi(), -x.lo()) } else { (x.hi(), x.lo()) };
-    let r1 = x * u;
-    let r2 = u * x;
-    let r3 = x * ut;
-    let r4 = ut * x;
-    let mut r5 = x;
-    r5 *= u;
-    let mut r6 = x;
-    r6 *= ut;
-    assert!(r1.hi() == wh && r1.lo() == wl);
-    assert!(r2.hi() == wh && r2.lo() == wl);
-    assert!(r3.hi() == wh && r3.lo() == wl);
-    assert!(r4.hi() == wh && r4.lo() == wl);
-    assert!(r5.hi() == wh && r5.lo() == wl);
-    assert!(r6.hi() == wh && r6.lo() == wl);
+    if dw {
+        let ut = tf(u, 0.0);
+        let r3 = x * ut;
+        let r4 = ut * x;
+        let mut r6 = x;
+        r6 *= ut;
+        assert!(r3.hi() == wh && r3.lo() == wl);
+        assert!(r4.hi() == wh && r4.lo() == wl);
+        assert!(r6.hi() == wh && r6.lo() == wl);
+    } else {
+        let r1 = x * u;
+        let r2 = u * x;
+        let mut r5 = x;
+        r5 *= u;
+        assert!(r1.hi() == wh && r1.lo() == wl);
+        assert!(r2.hi() == wh && r2.lo() == wl);
+        assert!(r5.hi() == wh && r5.lo() == wl);
+    }
     reached();
+}
+
+//@ id=C04 tier=quick to=1200 cfg=std exh=1 desc="multiplying by +-1.0 (f64 factor) is exact: x*(+-1.0), (+-1.0)*x, x*=(+-1.0) equal +-x word for word, ALL valid x with hi 0 or in [2^-450,2^450] and lo 0 or >= 2^-959"
+#[cfg_attr(kani, kani::proof)]
+pub fn c04_unit_factor_f64() {
+    unit_factor(false)
+}
+
+//@ id=C04 tier=quick to=2400 cfg=nostd exh=1 desc="multiplying by +-ONE (TwoFloat factor, zero low word) is exact: x*(+-ONE), (+-ONE)*x, x*=(+-ONE) equal +-x word for word, ALL valid x in range; run on the no_std configuration (real libm::fma code) because CBMC's fma primitive mis-evaluates a zero product with a non-zero addend"
+#[cfg_attr(kani, kani::proof)]
+pub fn c04_unit_factor_dw() {
+    unit_factor(true)
 }
 
 /// power-of-two factor 2^k, k symbolic in [-60, 60]: exact when the scaled low word stays normal
@@ -157,7 +171,7 @@ pub fn c04_pow2_factor_f64() {
     pow2_factor(false)
 }
 
-//@ id=C04 tier=quick to=1800 cfg=std exh=1 desc="x * (2^k, 0) (TwoFloat factor, both orders and *=) is (hi*2^k, lo*2^k) exactly for ALL valid x with hi 0 or in [2^-450,2^450] and lo 0 or >= 2^-959, k in [-60,60]"
+//@ id=C04 tier=quick to=2400 cfg=nostd exh=1 desc="[no_std configuration: real libm::fma instead of CBMC's fma primitive] x * (2^k, 0) (TwoFloat factor, both orders and *=) is (hi*2^k, lo*2^k) exactly for ALL valid x with hi 0 or in [2^-450,2^450] and lo 0 or >= 2^-959, k in [-60,60]"
 #[cfg_attr(kani, kani::proof)]
 pub fn c04_pow2_factor_dw() {
     pow2_factor(true)
